@@ -372,7 +372,49 @@ def enum_str_value(cls, idx, vals):
     return SStr(SSeq(n, at, 'bytes'), 'ascii')
 
 
+_SHARED_IDS = None
+SHARED_WRITE_HOOK = None      # set by the check that states the frame condition: hook(description) records the violation
+
+
+def shared_container_ids():
+    """ids of the mutable containers that live in class dictionaries and module globals of the repository: state that
+    outlives a call and is shared by all objects (a parse, a compose or an observer has no business writing to it)"""
+    global _SHARED_IDS
+    if _SHARED_IDS is None:
+        import sys
+        ids = {}
+        for mname, mod in list(sys.modules.items()):
+            if not mname.startswith('cryptoparser') or mod is None:
+                continue
+            for gname, g in list(vars(mod).items()):
+                if isinstance(g, (dict, list, set, bytearray)):
+                    ids[id(g)] = '%s.%s' % (mname, gname)
+                if isinstance(g, type) and getattr(g, '__module__', '') == mname:
+                    for aname, a in list(vars(g).items()):
+                        if isinstance(a, (dict, list, set, bytearray)):
+                            ids[id(a)] = '%s.%s.%s' % (mname, g.__name__, aname)
+        _SHARED_IDS = ids
+    return _SHARED_IDS
+
+
+def check_shared_write(o, what):
+    """a store into class-level / module-level state of the repository: never executed natively (it would leak into
+    the other paths); reported through the frame-condition hook when a check states one, unsupported otherwise"""
+    desc = None
+    if isinstance(o, (type, types.ModuleType)) and str(getattr(o, '__module__', getattr(o, '__name__', ''))).startswith('cryptoparser'):
+        desc = '%s of %s' % (what, getattr(o, '__qualname__', getattr(o, '__name__', o)))
+    elif isinstance(o, (dict, list, set, bytearray)) and id(o) in shared_container_ids():
+        desc = '%s of %s' % (what, shared_container_ids()[id(o)])
+    if desc is None:
+        return
+    if SHARED_WRITE_HOOK is not None:
+        SHARED_WRITE_HOOK(desc)
+        raise E.PathEnd()
+    raise E.Unsupported('write to shared state: ' + desc)
+
+
 def setattr_(o, name, v):
+    check_shared_write(o, 'attribute store .%s' % name)
     if isinstance(o, SObj):
         d = None
         try:
@@ -771,6 +813,8 @@ def call(f, args, kw):
     if isinstance(bself, str) and ('str', getattr(f, '__name__', '')) in METHOD_MODELS:
         return METHOD_MODELS[('str', f.__name__)](SStr(V.conc_seq(bself.encode('utf-8')), 'ascii' if bself.isascii() else 'utf-8'), *args, **kw)
     if bself is not None and isinstance(bself, (list, dict, set)) and getattr(f, '__name__', '') in SAFE_CONTAINER_METHODS:
+        if f.__name__ not in ('items', 'keys', 'values', 'copy'):
+            check_shared_write(bself, 'call of .%s()' % f.__name__)
         return native(f, args, kw)
     raise E.Unsupported('call of %r with symbolic arguments' % (getattr(f, '__qualname__', None) or f,))
 
